@@ -130,6 +130,14 @@ pub extern "C" fn main(argc: c_int, argv: *const *const c_char, envp: *const *co
             let _ = wr_all(rep.fd, &out);
             0
         }
+        "whoami" => {
+            // whoami <file> [hold]: record which executable file is running (PATH winner identification)
+            let rep = Rep::open(arg_bytes(argv, 2));
+            let mut out = exe.clone();
+            out.push(b'\n');
+            let _ = wr_all(rep.fd, &out);
+            0
+        }
         "id" => {
             // id <token>: print the token to stdout (PATH winner identification)
             let _ = wr_all(1, arg_bytes(argv, 2));
